@@ -947,3 +947,37 @@ def do_unchanged(env, st, i):
     if bad:
         return fail(i, '%s: %s changed' % (st.get('what', 'a map that must be unchanged was disturbed'), ', '.join(bad)))
     return []
+
+
+# ---------------------------------------------------------------- helpers for the C05 twins
+@step('ifexists')
+def do_ifexists(env, st, i):
+    env.maps[st['h']]     # raises MissingHandle (step skipped) when the handle was never produced
+    return []
+
+
+@step('sameas_if')
+def do_sameas_if(env, st, i):
+    if st['h'] not in env.maps or st['ref'] not in env.maps:
+        if (st['h'] in env.maps) != (st['ref'] in env.maps):
+            return fail(i, 'an operation was accepted on one of the twins and rejected on the other')
+        return []
+    return do_sameas(env, dict(st, what='bit-packed map and its ordinary boolean twin differ after write/read'), i)
+
+
+@step('mklike')
+def do_mklike(env, st, i):
+    h, out = st['h'], st['out']
+    m = env.maps[h]
+    res, err = run_api(i, 'make_empty_like', lambda: HealSparseMap.make_empty_like(m))
+    if err:
+        return fail(i, err)
+    env.put(out, res)
+    meta = env.meta[h]
+    return [(hsops.mk_model_op(out, env.meta[out], res, None), expect_ok(i, 'mklike'))]
+
+
+@step('kindsame')
+def do_kindsame(env, st, i):
+    a, b = env.maps[st['h']], env.maps[st['ref']]
+    return same_kind(i, 'make_empty_like: kind of the new map', a, b)
